@@ -376,8 +376,14 @@ def execute(case):
                 # a Python int, or the numpy integer a caller gets from indexing an integer temperature array
                 T_ref_arg = [int, np.int64, np.int32][case['cseed'] % 3](T_ref)
             info['ref_types'] = [type(T_ref_arg).__name__, type(href_arg).__name__]
+            # the data belong to the caller, who fits them again (another T_mid, another family): a fit that scales
+            # or sorts them in place makes every LATER fit from the same arrays miss its source (seed C03-13)
+            snapT, snapCp = np.array(Tin, dtype=float), np.array(Cpin, dtype=float)
             obj = cls.from_data(name='fit', T=Tin, CpoR=Cpin, T_ref=T_ref_arg, HoRT_ref=href_arg, SoR_ref=sref_arg,
                                 elements={'C': 1, 'H': 4}, phase='S', **tm_arg, **extra)
+            if not (np.array_equal(np.array(Tin, dtype=float), snapT)
+                    and np.array_equal(np.array(Cpin, dtype=float), snapCp)):
+                raise ValueError("from_data changed the caller's T / CpoR data in place")
             if fam == 'nasa7' and case['tmid'] == 'list':
                 # the fit returned for a LIST of guesses is the fit at the guess it reports: refit with that scalar
                 tm0 = obj.T_mid[0] if isinstance(obj.T_mid, (list, tuple)) else obj.T_mid
